@@ -5,6 +5,7 @@ CONSTANT Vals <- V01
 CONSTANT D = 1
 CONSTANT Fns <- FnsDirBin
 INVARIANT RefinesDefinition
+INVARIANT NbrEnumerationEqualsDefinition
 INVARIANT PrefixInv
 INVARIANT InUnitInterval
 INVARIANT ZeroWhenNoTriangleOrDegLT2
